@@ -32,8 +32,9 @@ Definition check (m : mach) (mn0 : mon) : bool :=
 Lemma ncp_frames_gated : forall v i m c,
   in_net (ph (ms m)) = false ->
   handle_frame v i (FrIpcp c) m = m /\ handle_frame v i (FrIp6cp c) m = m /\
-  handle_frame v i FrRs m = m /\ handle_frame v i FrNs m = m.
-Proof. intros v i m c H. unfold handle_frame. rewrite H. auto. Qed.
+  handle_frame v i FrRs m = m /\ handle_frame v i FrNs m = m /\
+  handle_frame v i FrDh6Sol m = m /\ handle_frame v i FrDh6Req m = m.
+Proof. intros v i m c H. unfold handle_frame. rewrite H. repeat split; reflexivity. Qed.
 
 (* PAP/CHAP credentials are taken only in the Authenticate phase *)
 Lemma auth_frames_gated : forall v i m,
@@ -77,7 +78,7 @@ Definition ev_alphabet : list event :=
              FCrej true; FCrej false; FTreq; FTack; FCdrej; FUnk] in
   let fr := map FrLcp cf ++ map FrLcpX [XEchoReq; XEchoRep; XDiscReq; XPrejIpcp; XPrejIp6cp; XPrejOther; XCrejAuth; XCnakPap; XCnakChap]
             ++ map FrIpcp cf ++ map FrIp6cp cf
-            ++ [FrPapReq; FrPapBad; FrPapOther; FrChapResp; FrChapBad; FrChapOther; FrRs; FrNs; FrIp6Junk; FrUnkProto; FrShort] in
+            ++ [FrPapReq; FrPapBad; FrPapOther; FrChapResp; FrChapBad; FrChapOther; FrRs; FrNs; FrIp6Junk; FrUnkProto; FrShort; FrDh6Sol; FrDh6Req] in
   map (EvFrame 0) fr
   ++ flat_map (fun k => map (EvAAA k) [AAcc; AAccIp; ARej; AErr]) [0; 1; 2; 3]
   ++ map (EvTimer 0) [TLcp; TIpcp; TIp6cp; TChap] ++ [EvPadt 0; EvDead 0; EvSbOk; EvOpen 0].
